@@ -1059,7 +1059,7 @@ class LogicalSegment(CIPSegment):
     logical_format = {
         1: 0b_000_000_00,  # 8-bit
         2: 0b_000_000_01,  # 16-bit
-        4: 0b_000_000_11,  # 32-bit
+        4: 0b_000_000_10,  # 32-bit
     }
 
     # 32-bit only valid for Instance ID and Connection Point types
